@@ -38,11 +38,11 @@ class Module:
         except SyntaxError as exc:
             raise AnalysisError(f"cannot parse {relpath}: {exc}") from exc
         if not self.is_pyx:
-            self.tree = _Canonical().visit(self.tree)
+            self.tree = _Walrus().visit(_Canonical(os.path.basename(relpath)[:-3]).visit(self.tree))
             ast.fix_missing_locations(self.tree)
         self.raw_tree = ast.parse(pysrc, filename=relpath)  # never inlined (anchored rules on helper calls)
         if not self.is_pyx:
-            self.raw_tree = _Canonical().visit(self.raw_tree)
+            self.raw_tree = _Walrus().visit(_Canonical(os.path.basename(relpath)[:-3]).visit(self.raw_tree))
             ast.fix_missing_locations(self.raw_tree)
         for node in ast.walk(self.raw_tree):
             for child in ast.iter_child_nodes(node):
@@ -176,6 +176,10 @@ class _Canonical(ast.NodeTransformer):
     calls to the repository's own (uniquely named) functions pass the parameters without default positionally
     and the defaulted ones by keyword; the polynomial constructors receive everything by keyword."""
 
+    def __init__(self, basename: str = ""):
+        super().__init__()
+        self.basename = basename  # 'reshape' for numpoly/array_function/reshape.py: the wrapper's own delegate stays
+
     def _keywords(self, node):
         func = node.func
         if isinstance(func, ast.Name):
@@ -232,6 +236,18 @@ class _Canonical(ast.NodeTransformer):
                 gen = ast.GeneratorExp(elt=elt, generators=[ast.comprehension(
                     target=ast.Name(id="MAPPED__item", ctx=ast.Store()), iter=node.args[1], ifs=[], is_async=0)])
                 return ast.copy_location(gen, node)
+        # numpy.ravel(x) / numpy.reshape(x, (a, b)) on a value that is not the polynomial storage of the mirrored wrapper:
+        # the method spelling x.ravel() / x.reshape(a, b) is the one the code base (and the rules) use
+        if isinstance(func, ast.Attribute) and isinstance(func.value, ast.Name) and func.value.id in ("numpy", "np") \
+                and func.attr in ("ravel", "reshape") and node.args and not isinstance(node.args[0], ast.Starred) \
+                and self.basename != func.attr and not isinstance(node.args[0], (ast.List, ast.Tuple, ast.ListComp)):
+            recv = node.args[0]
+            rest = list(node.args[1:])
+            if func.attr == "reshape" and rest and isinstance(rest[0], ast.Tuple) and not any(
+                    isinstance(e, ast.Starred) for e in rest[0].elts):
+                rest = list(rest[0].elts) + rest[1:]
+            new = ast.Call(func=ast.Attribute(value=recv, attr=func.attr, ctx=ast.Load()), args=rest, keywords=list(node.keywords))
+            return ast.copy_location(new, node)
         if isinstance(func, ast.Attribute) and func.attr in ("any", "all") and not (
             isinstance(func.value, ast.Name) and func.value.id in ("numpy", "np", "numpoly", "builtins")
         ):
@@ -241,6 +257,64 @@ class _Canonical(ast.NodeTransformer):
                 keywords=list(node.keywords),
             )
             return ast.copy_location(new, node)
+        return node
+
+
+class _Walrus(ast.NodeTransformer):
+    """``if (x := e) is None: ...`` is analysed as ``x = e`` followed by ``if x is None: ...``: every assignment expression
+    in the header of a statement (not inside a lambda, a comprehension or a ``while`` test, which are evaluated later
+    or repeatedly) is hoisted, in evaluation order, into a plain assignment in front of the statement."""
+
+    class _Collect(ast.NodeTransformer):
+        def __init__(self):
+            self.pre = []
+
+        def _skip(self, node):
+            return node
+
+        visit_Lambda = visit_ListComp = visit_SetComp = visit_DictComp = visit_GeneratorExp = _skip
+
+        def visit_NamedExpr(self, node):
+            value = self.visit(node.value)
+            assign = ast.Assign(targets=[ast.Name(id=node.target.id, ctx=ast.Store())], value=value)
+            ast.copy_location(assign, node)
+            ast.fix_missing_locations(assign)
+            self.pre.append(assign)
+            return ast.copy_location(ast.Name(id=node.target.id, ctx=ast.Load()), node)
+
+    HEADER_FIELDS = {
+        ast.If: ("test",), ast.For: ("iter",), ast.Return: ("value",), ast.Assign: ("value",), ast.AugAssign: ("value",),
+        ast.AnnAssign: ("value",), ast.Expr: ("value",), ast.Assert: ("test", "msg"), ast.Raise: ("exc", "cause"),
+        ast.With: ("items",), ast.Delete: (),
+    }
+
+    def _block(self, stmts):
+        out = []
+        for stmt in stmts:
+            stmt = self.generic_visit(stmt) if not isinstance(stmt, (ast.FunctionDef, ast.AsyncFunctionDef, ast.ClassDef)) \
+                else self.visit(stmt)
+            fields = self.HEADER_FIELDS.get(type(stmt))
+            if fields and any(isinstance(n, ast.NamedExpr) for f in fields for v in [getattr(stmt, f, None)]
+                              for item in (v if isinstance(v, list) else [v]) if item is not None for n in ast.walk(item)):
+                collect = self._Collect()
+                for f in fields:
+                    value = getattr(stmt, f, None)
+                    if isinstance(value, list):
+                        setattr(stmt, f, [collect.visit(v) for v in value])
+                    elif value is not None:
+                        setattr(stmt, f, collect.visit(value))
+                out.extend(collect.pre)
+            out.append(stmt)
+        return out
+
+    def generic_visit(self, node):
+        for field, value in ast.iter_fields(node):
+            if isinstance(value, list) and value and isinstance(value[0], ast.stmt):
+                setattr(node, field, self._block(value))
+            elif isinstance(value, list):
+                setattr(node, field, [self.visit(v) if isinstance(v, ast.AST) else v for v in value])
+            elif isinstance(value, ast.AST):
+                setattr(node, field, self.visit(value))
         return node
 
 
